@@ -307,7 +307,7 @@ pub struct KSummary {
 
 fn programs_for(seed: u64, tier: &str) -> Vec<(String, String)> {
     let mut v = corpus();
-    let n = if tier == "thorough" { 4000 } else { 60 };
+    let n = if tier == "thorough" { 6000 } else { 400 };
     for i in 0..n {
         let mut rng = Rng::keyed(seed, i, "k-fun");
         let src = crate::fungen::generate_for_k(&mut rng);
